@@ -46,8 +46,10 @@ def canon_hook(h):
             "args": args, "result": str(h.get("result")), "check": str(h.get("check", "skip")), "fid": fid}
 
 
-def canon_outcome(o):
+def canon_outcome(o, entry=True):
     o = o or {}
+    if not entry and o.get("k") == "return":
+        return {"k": "return", "v": "<completion value of the script>"}
     return {"k": str(o.get("k", "")), "v": str(o.get("v", ""))}
 
 
@@ -115,7 +117,9 @@ def run(seed, tier, extra_cases=None, use_cache=True):
                 "rid": rrid, "sid": str(run_.get("sid")),
                 "inlog": [canon_event(e) for e in a.get("log", [])],
                 "outlog": [canon_event(e) for e in b.get("log", [])],
-                "inout": canon_outcome(a.get("outcome")), "outout": canon_outcome(b.get("outcome")),
+                # without an entry function the "return value" is the script's completion value, which no
+                # loader observes (and which the injected prologue legitimately changes): not compared
+                "inout": canon_outcome(a.get("outcome"), job["entry"]), "outout": canon_outcome(b.get("outcome"), job["entry"]),
                 "hooks": [canon_hook(h) for h in b.get("hooks", [])],
                 "statdevs": meta[rid]["statdevs"], "alldsts": meta[rid]["alldsts"],
                 "protocall": (".call(" in st["cases"][rid]["code"]) or (".apply(" in st["cases"][rid]["code"]),
